@@ -11,6 +11,9 @@ from .common import Acc, relevant_mutations, outcome_sig
 PROP = 'C01'
 NSLICES = 64
 
+BFS = {'quick': 2, 'thorough': 5}          # depth of the explicit-state search over arbitrary action sequences (fbmc/bfs.py)
+BFS_CLAUSES = ('eqref.',)
+
 
 def spaces(tier):
     """(size, level, cfg, t0 names, gen kwargs, mutation mode)"""
